@@ -686,6 +686,32 @@ func isComplit(a *ssa.Alloc) bool {
 func (c *FCtx) allocTerm(a *ssa.Alloc) *Term {
 	elem := a.Type().(*types.Pointer).Elem()
 	if st, ok := elem.Underlying().(*types.Struct); ok {
+		// a struct-typed local that is assigned as a whole:  *a = v
+		var whole []*ssa.Store
+		for _, r := range *a.Referrers() {
+			if s, ok := r.(*ssa.Store); ok && s.Addr == a {
+				whole = append(whole, s)
+			}
+		}
+		if len(whole) == 1 {
+			fieldStores := false
+			for _, r := range *a.Referrers() {
+				if fa, ok := r.(*ssa.FieldAddr); ok {
+					for _, r2 := range *fa.Referrers() {
+						if s, ok := r2.(*ssa.Store); ok && s.Addr == fa {
+							fieldStores = true
+						}
+					}
+				}
+			}
+			if !fieldStores {
+				return c.Term(whole[0].Val)
+			}
+			return c.unk(a)
+		}
+		if len(whole) > 1 {
+			return c.unk(a)
+		}
 		var names []string
 		var vals []*Term
 		seen := map[string]bool{}
@@ -792,13 +818,16 @@ func mkMap(coll, body *Term) *Term {
 }
 
 // generalize replaces the loop's element terms by the bound variable.
-func generalize(t *Term, l *Loop, coll *Term) *Term {
-	m := map[string]*Term{
+func generalizeMap(l *Loop, coll *Term) map[string]*Term {
+	return map[string]*Term{
 		T("elem", l.ID, coll).Key():   T("bound", "e"),
 		T("mapkey", l.ID, coll).Key(): T("bound", "k"),
 		T("mapval", l.ID, coll).Key(): T("bound", "v"),
 	}
-	return t.Subst(m)
+}
+
+func generalize(t *Term, l *Loop, coll *Term) *Term {
+	return t.Subst(generalizeMap(l, coll))
 }
 
 func (c *FCtx) phiTerm(p *ssa.Phi) *Term {
